@@ -10,6 +10,7 @@ import (
 	"time"
 
 	"github.com/anishathalye/porcupine"
+	"github.com/grafana/carbon-relay-ng/aggregator"
 	"github.com/grafana/carbon-relay-ng/matcher"
 	"pgregory.net/rapid"
 
@@ -62,6 +63,21 @@ func TestPropOrdered(t *testing.T) {
 		tab := h.NewTable(true)
 		cap := h.NewCaptureRoute("cap", matcher.Matcher{})
 		tab.AddRoute(cap)
+		// in half of the cases a catch-all aggregation sits in front of the routes: a point rejected for its order reaches
+		// nothing, so the aggregation must see exactly the accepted points
+		var agg *aggregator.Aggregator
+		var aggIn0 int64
+		if rapid.Bool().Draw(t, "aggregation") {
+			am, _ := matcher.New("", "", "", "", "(?s).*", "")
+			var err error
+			agg, err = aggregator.NewMocked("count", am, "c19agg", false, 10, 100, false, make(chan []byte, 100000), 0, time.Now, make(chan time.Time))
+			if err != nil {
+				t.Fatalf("HARNESS-ERROR: %v", err)
+			}
+			defer agg.Shutdown()
+			tab.AddAggregator(agg)
+			aggIn0 = h.Count("unit=Metric.direction=in.aggregator=" + agg.Key)
+		}
 		nseries := rapid.IntRange(1, 4).Draw(t, "nseries")
 		ngor := rapid.IntRange(1, 8).Draw(t, "goroutines")
 		prefix := fmt.Sprintf("c19.p%d.c%d.", pid(), caseNo)
@@ -215,6 +231,12 @@ func TestPropOrdered(t *testing.T) {
 			res := porcupine.CheckOperationsTimeout(maxRegister, h, 20*time.Second)
 			if res == porcupine.Illegal {
 				t.Fatalf("series %d: accept/reject decisions are not linearizable w.r.t. 'accept iff ts > max accepted so far'; history %s", s, hist)
+			}
+		}
+		if agg != nil {
+			h.AggBarrier(agg)
+			if n := h.Count("unit=Metric.direction=in.aggregator="+agg.Key) - aggIn0; int(n) != nAcc+crowd {
+				t.Fatalf("the catch-all aggregation received %d points, %d were accepted (a point rejected for its order must reach nothing); history %s", n, nAcc+crowd, hist)
 			}
 		}
 		// accounting: every rejection counted as out-of-order, none as invalid
